@@ -23,7 +23,8 @@ TReset == /\ E.k = "Reset" /\ l = seg /\ map' = {} /\ n' = E.n
 \* Put: the key now maps to the value, every other key is untouched; the listing has no duplicate key
 TPut == /\ E.k = "Put" /\ StrLen(E.key) = n
         /\ map' = PutMap(map, E.key, E.val) /\ n' = n
-        /\ AsSet(E.items) = map' /\ Len(E.items) = Cardinality(map')
+        /\ E.size = Cardinality(map')
+        /\ ("items" \in DOMAIN E) => (AsSet(E.items) = map' /\ Len(E.items) = Cardinality(map'))
 TGet == /\ E.k = "Get" /\ UNCHANGED <<map, n>>
         /\ IF E.key \in Keys(map) THEN E.found /\ <<E.key, E.val>> \in map ELSE ~E.found
 \* Enc: the cell tree is a valid dictionary denoting exactly the map (any label forms)
